@@ -86,7 +86,9 @@ BUILTINS = {'len': len, 'bool': bool, 'tuple': tuple, 'list': list,
             'enumerate': enumerate, 'zip': zip, 'sorted': sorted,
             'iter': iter, 'next': None, 'int': int, 'float': float,
             'type': None, 'getattr': None, 'callable': None,
-            'setattr': None, 'hasattr': None, 'super': None}
+            'setattr': None, 'hasattr': None, 'super': None,
+            'reversed': reversed, 'range': range, 'min': min, 'max': max,
+            'sum': sum, 'abs': abs, 'map': None, 'filter': None}
 
 
 # library functions that are pure functions of concrete text / numbers
@@ -107,6 +109,16 @@ class Interp:
         self.follow = follow
         self.trace = []        # uninterpreted calls, in order
         self.symbolic_ops = False
+        self.shared = {}       # state shared with sub-interpreters
+
+    def spawn(self, mod):
+        sub = Interp(self.repo, mod, self.oracle, self.isinstance_oracle,
+                     self.max_steps, self.follow)
+        sub.symbolic_ops = self.symbolic_ops
+        sub.shared = self.shared
+        sub.shared = self.shared
+        sub.steps, sub.trace = self.steps, self.trace
+        return sub
 
     # ---------------------------------------------------------------- entry
     def run(self, fnode, args, closure_env=None):
@@ -347,7 +359,7 @@ class Interp:
             if isinstance(tgt, model.FuncInfo):
                 return tgt
             if isinstance(tgt, tuple) and tgt[0] == 'const':
-                return Interp(self.repo, tgt[1], self.oracle).ev(tgt[2], {})
+                return self.spawn(tgt[1]).ev(tgt[2], {})
             if d:
                 return ('global', d)
             raise Unsupported('name ' + e.id)
@@ -485,14 +497,23 @@ class Interp:
 
     def call(self, e, env):
         f = self.ev(e.func, env)
+        site = (e, env, self.mod)
         args = []
         for a in e.args:
             if isinstance(a, ast.Starred):
                 args.extend(self.iterate(self.ev(a.value, env)))
             else:
                 args.append(self.ev(a, env))
-        kwargs = {k.arg: self.ev(k.value, env) for k in e.keywords
-                  if k.arg is not None}
+        kwargs = {}
+        for k in e.keywords:
+            v = self.ev(k.value, env)
+            if k.arg is not None:
+                kwargs[k.arg] = v
+            elif isinstance(v, dict) and all(isinstance(x, str)
+                                             for x in v):
+                kwargs.update(v)
+            else:
+                raise Unsupported('** of %r' % (v,))
         # short-circuit quantifiers over lazily evaluated comprehensions
         if f == ('builtin', 'any'):
             for x in self.iterate(args[0], force=False):
@@ -508,6 +529,7 @@ class Interp:
             isinstance(x, Thunk) for x in a) else a for a in args]
         if isinstance(f, tuple) and f[0] == 'builtin':
             name = f[1]
+            self.shared['call'] = site
             r = self.oracle('builtins.' + name, args, kwargs)
             if r is not None:
                 self.trace.append(('builtins.' + name, args))
@@ -540,7 +562,7 @@ class Interp:
             except Exception as ex:
                 raise _Raise(type(ex).__name__)
             return list(r) if name in ('enumerate', 'zip', 'sorted',
-                                       'iter') else r
+                                       'iter', 'reversed', 'range') else r
         if isinstance(f, tuple) and f[0] == 'attr':
             base, attr = f[1], f[2]
             if isinstance(base, str) and not attr.startswith('_') and \
@@ -566,6 +588,7 @@ class Interp:
                 return None
             if isinstance(base, dict) and attr == 'get':
                 pass
+            self.shared['call'] = site
             r = self.oracle('.' + attr, [base] + args, kwargs)
             if r is not None:
                 self.trace.append(('.' + attr, [base] + args))
@@ -575,6 +598,7 @@ class Interp:
             return self.apply(f.node, f.env, args, kwargs)
         if isinstance(f, tuple) and len(f) == 3 and f[0] == 'bound':
             m, recv = f[1], f[2]
+            self.shared['call'] = site
             r = self.oracle(m.key, args, kwargs)
             if r is not None:
                 self.trace.append((m.key, args))
@@ -582,12 +606,14 @@ class Interp:
             sub = Interp(self.repo, m.module, self.oracle,
                          self.isinstance_oracle, self.max_steps)
             sub.symbolic_ops = self.symbolic_ops
+            sub.shared = self.shared
             sub.steps, sub.trace = self.steps, self.trace
             out = sub.apply(m.node, {}, ([recv] if recv is not None
                                          else []) + args, kwargs)
             self.steps = sub.steps
             return out
         if isinstance(f, model.FuncInfo):
+            self.shared['call'] = site
             r = self.oracle(f.key, args, kwargs)
             if r is not None:
                 self.trace.append((f.key, args))
@@ -597,18 +623,21 @@ class Interp:
             sub = Interp(self.repo, f.module, self.oracle,
                          self.isinstance_oracle, self.max_steps)
             sub.symbolic_ops = self.symbolic_ops
+            sub.shared = self.shared
             sub.steps = self.steps
             sub.trace = self.trace
             out = sub.apply(f.node, {}, args, kwargs)
             self.steps = sub.steps
             return out
         if isinstance(f, tuple) and f[0] == 'global':
+            self.shared['call'] = site
             r = self.oracle(f[1], args, kwargs)
             if r is not None:
                 self.trace.append((f[1], args))
                 return r[0]
             tgt = self.repo.lookup(f[1])
             if isinstance(tgt, model.FuncInfo) and self.follow:
+                self.shared['call'] = site
                 r = self.oracle(tgt.key, args, kwargs)
                 if r is not None:
                     self.trace.append((tgt.key, args))
@@ -616,6 +645,7 @@ class Interp:
                 sub = Interp(self.repo, tgt.module, self.oracle,
                              self.isinstance_oracle, self.max_steps)
                 sub.symbolic_ops = self.symbolic_ops
+                sub.shared = self.shared
                 sub.steps, sub.trace = self.steps, self.trace
                 out = sub.apply(tgt.node, {}, args, kwargs)
                 self.steps = sub.steps
@@ -631,6 +661,7 @@ class Interp:
                     raise _Raise(type(ex).__name__)
             raise Unsupported('call of ' + f[1])
         if isinstance(f, Sym):
+            self.shared['call'] = site
             r = self.oracle(f.name, args, kwargs)
             if r is not None:
                 self.trace.append((f.name, args))
